@@ -278,18 +278,18 @@ class _idiv:
     @ensures("contents_divide_linearly_errors_quadratically")
     def _(a, old, result):
         c = old.other
-        return And(result is a.self, *[x1 * c == x0 for x0, x1 in zip(F(old.self), F(a.self))],
-                   *[x1 * c * c == x0 for x0, x1 in zip(E(old.self), E(a.self))],
-                   *[x1 * c == x0 for x0, x1 in zip(M(old.self), M(a.self))])
+        return And(result is a.self, *[close(x1 * c, x0) for x0, x1 in zip(F(old.self), F(a.self))],
+                   *[close(x1 * c * c, x0) for x0, x1 in zip(E(old.self), E(a.self))],
+                   *[close(x1 * c, x0) for x0, x1 in zip(M(old.self), M(a.self))])
 
     @ensures("statistics_rescaled")
     def _(a, old, result):
         if not has(old.self, "_stats"):
             return True
         s, r, c = attr(old.self, "_stats"), attr(a.self, "_stats"), old.other
-        return And(r.weight * c == s.weight, r.sum * s.weight == s.sum * r.weight, r.min == s.min, r.max == s.max,
-                   Implies(s.weight > 0, (r.sum2 * r.weight - r.sum * r.sum) * s.weight * s.weight
-                           == (s.sum2 * s.weight - s.sum * s.sum) * r.weight * r.weight))
+        return And(close(r.weight * c, s.weight), close(r.sum * s.weight, s.sum * r.weight), r.min == s.min, r.max == s.max,
+                   Implies(s.weight > 0, close((r.sum2 * r.weight - r.sum * r.sum) * s.weight * s.weight,
+                                               (s.sum2 * s.weight - s.sum * s.sum) * r.weight * r.weight)))
 
     @ensures("float_dtype")
     def _(a, old, result):
@@ -313,7 +313,7 @@ class _div:
     @ensures("divided_copy")
     def _(a, old, result):
         c = old.other
-        return And(*[x1 * c == x0 for x0, x1 in zip(F(old.self), F(result))], *[x1 * c * c == x0 for x0, x1 in zip(E(old.self), E(result))])
+        return And(*[close(x1 * c, x0) for x0, x1 in zip(F(old.self), F(result))], *[close(x1 * c * c, x0) for x0, x1 in zip(E(old.self), E(result))])
 
     @ensures("operand_unchanged_result_independent")
     def _(a, old, result):
